@@ -11,6 +11,9 @@ package main
 //	typednil <Name>                   → "<struct> <message>"    NewXxx(nil) and its ToMesg(nil)
 //	typedmark <Name> <struct> <k> <0|1> → "ok=<0|1> <struct'>"  MarkAsExpandedField(k, flag)
 //	typedseq <Name> <message1> <message2> → "<struct>"          s := NewXxx(&message1); s.Reset(&message2): nothing of message1 survives
+//	typedmsm <Name> <message>         → "<struct> <struct'>"    struct = NewXxx(&message) — a struct as Reset builds it, marks on
+//	                                                            non-eligible numbers included —, struct' = NewXxx(&struct.ToMesg(
+//	                                                            IncludeExpandedFields, standard factory)) (--spec: normDoc struct)
 //
 //	<opts>   ::= "o:nil" | "o:" ("i"|"-") "," ("std"|"zero"|"unk"|"alt"|"nil")
 //	             i = IncludeExpandedFields; factory: std = factory.StandardFactory(), zero = Options.Factory left nil,
@@ -48,6 +51,7 @@ func init() {
 	executors["typedseq"] = execTypedSeq
 	executors["typedmark"] = execTypedMark
 	executors["typednils"] = execTypedNils
+	executors["typedmsm"] = execTypedMSM
 }
 
 // ---------------------------------------------------------------- custom factories
@@ -355,6 +359,20 @@ func execTypedID(args []string) string {
 	return printStruct(t, t.newStruct(&m))
 }
 
+func execTypedMSM(args []string) string {
+	if len(args) != 2 {
+		return "bad-op"
+	}
+	t := typedTable(args[0])
+	m, ok := parseMessage(args[1])
+	if t == nil || !ok {
+		return "bad-op"
+	}
+	s := t.newStruct(&m)
+	m2 := t.toMesg(s, &mesgdef.Options{Factory: factory.StandardFactory(), IncludeExpandedFields: true})
+	return printStruct(t, s) + " " + printStruct(t, t.newStruct(&m2))
+}
+
 func execTypedNil(args []string) string {
 	if len(args) != 1 {
 		return "bad-op"
@@ -594,6 +612,10 @@ func genTyped(emit func(string), tier string, rng *Rng) {
 					m := proto.Message{Num: t.num, Fields: []proto.Field{stdField(t, sl.num, slotValue(sl, mode, r), ex)}}
 					em("typedms", typedOptStrings[r.Intn(len(typedOptStrings))], &m)
 					em("typedrt", "o:i,std", &m)
+					if ex && mode != 2 { // the struct Reset builds from a marked field, through ToMesg and back
+						emit(fmt.Sprintf("typedmsm %s %s", t.name, printMessage(&m)))
+						count("msm-slot")
+					}
 					count(fmt.Sprintf("slot-%s-mode%d", sl.kind, mode))
 				}
 			}
@@ -631,6 +653,10 @@ func genTyped(emit func(string), tier string, rng *Rng) {
 			em("typedms", o, &m)
 			em("typedrt", o, &m)
 			count("random-message")
+			if j%3 == 0 {
+				emit(fmt.Sprintf("typedmsm %s %s", t.name, printMessage(&m)))
+				count("msm-random")
+			}
 			if j%5 == 0 { // array values built from nil Go slices
 				m3 := randomMesg()
 				nEmpty := 0
@@ -679,7 +705,7 @@ func genTyped(emit func(string), tier string, rng *Rng) {
 				if sl.kind == "time" {
 					sec := int64(uint32(r.U64()))
 					if wild {
-						sec = []int64{-1, -62766662400, 0, 1 << 32, 1<<32 - 1, 1<<32 - 2, 1<<33 + 5, -1 << 35}[r.Intn(8)]
+						sec = []int64{-1, -62766662400, 0, 1 << 32, 1<<32 - 1, 1<<32 - 2, 1<<33 + 5, -1 << 35, 9223372036, 9223372037, 10000000000, 1 << 40}[r.Intn(12)]
 					}
 					f.Set(reflect.ValueOf(time.Unix(fitEpochU+sec, 0).UTC()))
 					continue
